@@ -24,6 +24,7 @@ RULE = ('(a) from_sparse on generated (data, column table, requested channels) t
         'sign per (channel, component) and only where the eigenvalues are separated, with projections on '
         'the leading principal components computed independently from the raw bytes. non-trivial = distinct '
         'cases with a discarded column, a permuted request, or a row table.')
+RULE += " Added classes: -1 padded template_feature_ind / pc_feature_ind rows (padding never in the first slot, ids distinct per row); 384-channel probes with 17-40 requested channels (NumPy's sort-based isin branch); one conversion of > 50000 spikes per shard."
 EXHAUSTIVE = {'quick': False, 'thorough': False}
 FLOORS = {'quick': {'evaluations': 20000, 'distinct_nontrivial': 8000,
                     'monitors': {'M2.from_sparse.checked': 12000}},
